@@ -64,7 +64,8 @@ def rand_name(rng):
         return '_' + ''.join(rng.choice('abc_0123456789') for _ in range(rng.randint(0, 5)))
     if k == 8:
         return rng.choice([u'\xe9t\xe9', u'中', u'na\xefve', u'x́', u'αβ']) + rng.choice(['', 'a', '1'])
-    return rng.choice(['TRUE', 'FALSE', 'NULL', 'true', 'x', 'PI', 'SUM', 'e', 'E', 'a1b', 'ab12cd', 'R1C1', 'A_1', 'x1', 'xfd1048577', 'IF'])
+    return rng.choice(['TRUE', 'FALSE', 'NULL', 'true', 'x', 'PI', 'SUM', 'e', 'E', 'a1b', 'ab12cd', 'R1C1', 'A_1', 'x1', 'xfd1048577', 'IF',
+                       'inf', 'nan', 'Infinity', 'NaN', 'INF', 'infinity', 'None', 'True', 'j', 'e_', 'inf_'])      # words float() / eval() would read
 
 
 def name_class(n):
@@ -262,6 +263,19 @@ def check_rebinding(seed):
             want = {'result': base + 2 if base is not None else 2, 'error': None}
             if r != want:
                 out.append(('set_function(%r, <%s>) then %s(...)' % (name, label, name), None, repr(want), repr(r)))
+    # a registered function is called with whatever its arguments evaluate to - error values included
+    from hotxlfp.formulas import error as _err
+    w = hotxlfp.Parser()
+    seen = []
+    w.set_function('DESCRIBE', lambda *a: seen.append(a) or len(a))
+    w.set_function('ISERROR', lambda *a: seen.append(a) or 'mine')
+    for f, nargs, want in (('DESCRIBE(1,NA(),3)', 3, 3), ('DESCRIBE(1/0)', 1, 1), ('DESCRIBE(MOD(1,0),SUM(1/0))', 2, 2), ('ISERROR(1/0)', 1, 'mine'),
+                           ('1+DESCRIBE(NA(),2)', 2, 3)):
+        del seen[:]
+        r = w.parse(f)
+        if r != {'result': want, 'error': None} or len(seen) != 1 or len(seen[0]) != nargs or not any(isinstance(x, _err.XLError) for x in seen[0]):
+            out.append(('%s with a registered function: called once with the evaluated arguments, error values included' % f, None,
+                        repr(({'result': want, 'error': None}, 'one call, %d arguments' % nargs)), repr((r, seen))))
     q = hotxlfp.Parser()
     if q.parse('LATE(1)')['error'] != '#NAME?':
         out.append(('LATE(1) unregistered', None, '#NAME?', repr(q.parse('LATE(1)'))))
